@@ -1,5 +1,6 @@
 import ReplicatProofs.Lemmas.Settings
 import ReplicatProofs.Lemmas.SettingsKeyFile
+import ReplicatProofs.Lemmas.SettingsCli
 /-!
 # C17 — accepted settings always yield a usable repository and working keys
 
@@ -397,5 +398,259 @@ discharged from the regenerated adapter table by `decide`; if the guards are rem
 theorem accept_implies_usable (s : Option Settings) (pw : Bool) (hacc : accept s pw = true) :
     usable (runInit s pw).1 = true :=
   accept_implies_usable_if_fixed (by decide) s pw hacc
+
+/-! ## custom settings WRITTEN ON THE COMMAND LINE (`replicat init … --encryption.kdf.n 16 --hashing.name blake2b`)
+
+Model: `ReplicatModel/SettingsCli.lean` — `parse_cli_settings` (the loop as written), `guess_type` on a decidable fragment of
+texts, `flat_to_nested` (sorted items, split on the separator, `setdefault` descent, `Conflicting options`), and the part of
+`main()` between the second parse and the handler.  The theorems with a parameter `g` hold for EVERY coercion function
+whose results are scalars (so also for the real `guess_type` wherever it returns a scalar); `cliMain` uses the modelled one. -/
+section Cli
+open Replicat.SettingsCli
+
+/-- **The extracted shape facts.**  The loop of `parse_cli_settings` (prefix test, pending-flag bookkeeping, the key
+normalisation chain, the coercion), `flat_to_nested` (separator, `sorted`, descent inside `try`, the two exception classes
+that mean a scalar/dict clash, the error raised), `guess_type` (title-cased words, evaluator, fallback) and the chain in
+`main()` (unknown arguments of the second parse → `parse_cli_settings` → `flat_to_nested` only if nothing is left unknown →
+`main_parser.error` → handler, for exactly `init` / `add-key` / `benchmark`, each handing `settings=` on) are what the model
+was written against.  Regenerated from `/repo` on every run; any other shape makes this fail. -/
+theorem cli_shape_bridge :
+    (cliLoopRecognised = true ∧ cliFlagPrefix = ['-', '-'] ∧ cliKeyOps = [.lstrip ['-'], .replace '-' '_'] ∧
+      cliCoercion = "guess_type") ∧
+    (flatDescentRecognised = true ∧ flatSep = '.' ∧ flatSorted = true ∧
+      flatConflictCatches = ["AttributeError", "TypeError"] ∧ flatConflictRaises = "ReplicatError") ∧
+    (guessRecognised = true ∧ guessTitleWords = ["false".toList, "none".toList, "true".toList] ∧
+      guessEval = "ast.literal_eval" ∧ guessCatches = ["SyntaxError", "ValueError"]) ∧
+    (mainChainRecognised = true ∧
+      mainCliChain = [.secondParse, .settingsNone, .parseCliSettings, .flatToNestedIfClean, .errorIfUnknown, .runHandler] ∧
+      mainSettingsActions = ["add-key", "benchmark", "init"] ∧
+      mainHandlerPassesSettings = [("add-key", "add_key"), ("benchmark", "benchmark"), ("init", "init")]) := by
+  decide
+
+/-- **Nothing is dropped silently.**  Whatever the argument list: the arguments are, as a multiset, exactly the flag/value
+pairs (a flag immediately followed by a non-flag) together with the `unknown` list; the mapping is the dict of those pairs
+(key normalised, value coerced ONCE, a repeated key keeps its LAST value); and every pair is a flag followed by a value. -/
+theorem cli_settings_unknown_sound {β : Type} (g : Str → β) (args : List Str) :
+    args.Perm ((cliPairs args).flatMap (fun p => [p.1, p.2]) ++ (parseWith g args).2) ∧
+    (parseWith g args).1 = toDict ((cliPairs args).map (fun p => (normKey p.1, g p.2))) ∧
+    (∀ p ∈ cliPairs args, isFlag p.1 = true ∧ isFlag p.2 = false) := by
+  rw [parseWith_spec]
+  exact ⟨cli_perm args, rfl, cliPairs_flags args⟩
+
+/-- **Looking a dotted key up in the settings the handler receives returns the LAST value given for that key, coerced
+once** — and nothing for a key that was not given. -/
+theorem cli_settings_lookup {β : Type} (g : Str → β) (action : String) (args : List Str) (t : Tree β)
+    (h : cliMainWith g action args = .settings t) (k : Str) :
+    t.leafAt (splitDots k) = (lastGiven k args).map g := by
+  rw [cliMainWith_eq] at h
+  split at h
+  · cases h
+  · split at h
+    · cases h
+    · split at h
+      · cases h
+      · split at h
+        · rename_i t' hft
+          cases h
+          apply Option.ext
+          intro v
+          rw [(flatToNested_spec _).2 t hft (splitDots k) v]
+          constructor
+          · rintro ⟨k', hk', hv⟩
+            have : k = k' := splitOn_injective flatSep _ _ hk'
+            subst this
+            rw [lastFor_toDict] at hv
+            rw [← hv, lastGiven, ← lastFor_map, List.map_map]
+            rfl
+          · intro hv
+            refine ⟨k, rfl, ?_⟩
+            rw [lastFor_toDict, ← hv, lastGiven, ← lastFor_map, List.map_map]
+            rfl
+        · cases h
+
+/-- the same for the modelled `guess_type`: the scalar at a dotted key is the reading of the last text given for it -/
+theorem cli_settings_lookup_guess (action : String) (args : List Str) (t : Tree Val)
+    (h : cliMain action args = .settings t) (k : Str) (v : Val) :
+    t.leafAt (splitDots k) = some v ↔ (lastGiven k args).map guessType = some (.val v) := by
+  rw [cliMain_eq] at h
+  split at h
+  · cases h
+  · split at h
+    · cases h
+    · split at h
+      · cases h
+      · split at h
+        · cases h
+        · rename_i flatV hga
+          split at h
+          · rename_i t' hft
+            cases h
+            have hflat := guessedAll_some _ _ hga
+            rw [(flatToNested_spec _).2 t hft (splitDots k) v]
+            have key : ∀ k', lastFor k' flatV = some v ↔ (lastGiven k' args).map guessType = some (.val v) := by
+              intro k'
+              have h1 : (lastFor k' flatV).map Guess.val = (lastGiven k' args).map guessType := by
+                rw [← lastFor_map, ← hflat, lastFor_toDict, lastGiven, ← lastFor_map, List.map_map]
+                rfl
+              rw [← h1]
+              cases lastFor k' flatV <;> simp
+            constructor
+            · rintro ⟨k', hk', hv⟩
+              have : k = k' := splitOn_injective flatSep _ _ hk'
+              subst this
+              exact (key k).mp hv
+            · intro hv
+              exact ⟨k, rfl, (key k).mpr hv⟩
+          · cases h
+
+/-- **`Conflicting options` is raised exactly when one key is a proper dotted prefix of another** (`a.b` and `a.b.c`),
+whichever of the two comes first in the dict. -/
+theorem cli_settings_conflict_iff_flat {β : Type} (flat : List (Str × β)) :
+    flatToNested flat = .error .conflictingOptions ↔
+      ∃ q ∈ flat.map (·.1), ∃ p ∈ flat.map (·.1), ∃ r, p = q ++ flatSep :: r :=
+  (flatToNested_spec flat).1
+
+/-- the same from the command line: for `init` / `add-key` / `benchmark` and a non-empty list of unknown arguments, `main()`
+ends in `Conflicting options` exactly when every argument was paired and two of the (normalised) keys are in the
+dotted-prefix relation — in either argument order. -/
+theorem cli_settings_conflict_iff {β : Type} (g : Str → β) (action : String)
+    (hact : mainSettingsActions.contains action = true) (args : List Str) (hne : args ≠ []) :
+    cliMainWith g action args = .conflict ↔
+      cliLeftover args = [] ∧
+      ∃ q ∈ (cliPairs args).map (fun p => normKey p.1), ∃ p ∈ (cliPairs args).map (fun p => normKey p.1),
+        ∃ r, p = q ++ flatSep :: r := by
+  have hkeys : ∀ k, k ∈ (toDict ((cliPairs args).map (fun p => (normKey p.1, g p.2)))).map (·.1) ↔
+      k ∈ (cliPairs args).map (fun p => normKey p.1) := by
+    intro k
+    rw [toDict_keys_mem, List.map_map]
+    rfl
+  have hconf := cli_settings_conflict_iff_flat (toDict ((cliPairs args).map (fun p => (normKey p.1, g p.2))))
+  simp only [hkeys] at hconf
+  have he : args.isEmpty = false := by cases args with | nil => exact absurd rfl hne | cons _ _ => rfl
+  rw [cliMainWith_eq]
+  simp only [he, hact, Bool.false_eq_true, if_false, Bool.not_true]
+  cases hl : cliLeftover args with
+  | cons a rest => simp
+  | nil =>
+    simp only [List.isEmpty_nil, Bool.not_true, Bool.false_eq_true, if_false, true_and]
+    rw [← hconf]
+    cases hft : flatToNested (toDict ((cliPairs args).map (fun p => (normKey p.1, g p.2)))) with
+    | ok t => simp
+    | error e => cases e; simp
+
+/-- **The order of the items does not matter**: two dicts with the same items (distinct keys) give the same nested dict —
+the same children in the same order, or the same failure. -/
+theorem cli_settings_order_irrelevant_flat {β : Type} (flat₁ flat₂ : List (Str × β)) (hperm : flat₁.Perm flat₂)
+    (hkeys : (flat₁.map (·.1)).Nodup) : flatToNested flat₁ = flatToNested flat₂ :=
+  flatToNested_perm flat₁ flat₂ hperm hkeys
+
+/-- the same from the command line: permuting flag/value pairs with distinct (normalised) keys changes nothing of what the
+handler receives (or of the failure) -/
+theorem cli_settings_order_irrelevant {β : Type} (g : Str → β) (action : String)
+    (hact : mainSettingsActions.contains action = true) (ps₁ ps₂ : List (Str × Str)) (hperm : ps₁.Perm ps₂)
+    (hflags : ∀ p ∈ ps₁, isFlag p.1 = true ∧ isFlag p.2 = false)
+    (hkeys : (ps₁.map (fun p => normKey p.1)).Nodup) :
+    cliMainWith g action (argsOfPairs ps₁) = cliMainWith g action (argsOfPairs ps₂) := by
+  have hflags2 : ∀ p ∈ ps₂, isFlag p.1 = true ∧ isFlag p.2 = false := fun p hp => hflags p (hperm.symm.subset hp)
+  obtain ⟨hp1, hl1⟩ := cliPairs_argsOfPairs ps₁ hflags
+  obtain ⟨hp2, hl2⟩ := cliPairs_argsOfPairs ps₂ hflags2
+  have hempty : ps₁.isEmpty = ps₂.isEmpty := by
+    cases ps₁ with
+    | nil => rw [hperm.symm.eq_nil]
+    | cons a r =>
+      cases ps₂ with
+      | nil => exact absurd hperm.eq_nil (by simp)
+      | cons _ _ => rfl
+  have hn1 : ((ps₁.map (fun p => (normKey p.1, g p.2))).map (·.1)).Nodup := by rw [List.map_map]; exact hkeys
+  have hpm : (ps₁.map (fun p => (normKey p.1, g p.2))).Perm (ps₂.map (fun p => (normKey p.1, g p.2))) := hperm.map _
+  have hn2 : ((ps₂.map (fun p => (normKey p.1, g p.2))).map (·.1)).Nodup := (hpm.map _).nodup hn1
+  rw [cliMainWith_eq, cliMainWith_eq, hp1, hp2, hl1, hl2, argsOfPairs_isEmpty, argsOfPairs_isEmpty, hempty,
+    toDict_of_nodup _ hn1, toDict_of_nodup _ hn2, flatToNested_perm _ _ hpm hn1]
+  simp only [hact, Bool.not_true, Bool.false_eq_true, if_false, List.isEmpty_nil]
+
+/-- **The command line is as good as the dict.**  For every settings dictionary that can be written as flags
+(`cliExpressible`, decidable: no empty / opaque mapping; every value has a text that the modelled `guess_type` reads back
+as that value — ints, bools, `None`, strings that are plain words or can be quoted; key components without `.` and `-`; no
+two leaves on the same or on nested paths, as in every dict), `main()` on its canonical rendering
+`--section.sub.arg text …` hands the handler a nested dict with exactly the scalars of that dictionary at exactly their
+paths.  Two nested dicts without empty mappings that agree on all scalars are equal as Python dicts, so every C17 theorem
+about `init(settings=…)` / `add_key(settings=…)` applies to the command line. -/
+theorem cli_settings_equals_direct (action : String) (hact : mainSettingsActions.contains action = true)
+    (s : Settings) (hexp : cliExpressible s = true) :
+    ∃ t, cliMain action (renderSettings s) = .settings t ∧ ∀ p v, t.leafAt p = some v ↔ (p, v) ∈ leavesOf s := by
+  simp only [cliExpressible, Bool.and_eq_true, Bool.not_eq_true'] at hexp
+  obtain ⟨⟨hne, _⟩, hl⟩ := hexp
+  have hne' : leavesOf s ≠ [] := by
+    intro e; rw [e] at hne; simp at hne
+  exact cliMain_renderLeaves action hact (leavesOf s) hne' hl
+
+/-- **Every dict qualifies.**  The pairwise half of `cliExpressible` (no two leaves on the same or on nested paths) is a fact
+about dicts, not a restriction: it holds for every settings dictionary in which no mapping has a key twice (`dictLike`).  What
+remains to be checked of a dictionary is local: no empty / opaque mapping, and each leaf writable (`leafWritable`: components
+without `.` and `-`, value with a text that is read back — see `cli_value_texts_read_back`). -/
+theorem cli_dict_expressible (s : Settings) (hd : dictLike s = true) (hno : noOpaque s = true)
+    (hne : (leavesOf s).isEmpty = false) (hw : (leavesOf s).all leafWritable = true) : cliExpressible s = true :=
+  cliExpressible_of_dictLike s hd hno hne hw
+
+/-- **Which values can be written.**  The value half of `cliExpressible` is no hidden restriction: `True` / `False` / `None`,
+every integer of at most 255 digits (canonical text = its decimal numeral, with `-` when negative) and every string that is a
+plain word `[A-Za-z_][A-Za-z0-9_.-]*` other than none / true / false (adapter names, …) of at most 256 characters have a canonical
+text, that text is not a flag, and the modelled `guess_type` reads it back as exactly that value. -/
+theorem cli_value_texts_read_back :
+    (∀ b : Bool, ∃ t, textOf (.bool b) = some t ∧ guessType t = .val (.bool b) ∧ isFlag t = false) ∧
+    (∃ t, textOf .none = some t ∧ guessType t = .val .none ∧ isFlag t = false) ∧
+    (∀ i : Int, (decDigits i.natAbs).length < guessMaxLen →
+      ∃ t, textOf (.int i) = some t ∧ guessType t = .val (.int i) ∧ isFlag t = false) ∧
+    (∀ s : String, plainWord s.toList = true → guessTitleWords.contains (lowerAscii s.toList) = false →
+      s.toList.length ≤ guessMaxLen →
+      textOf (.str s) = some s.toList ∧ guessType s.toList = .val (.str s) ∧ isFlag s.toList = false) := by
+  refine ⟨?_, ?_, guessType_int, guessType_plainWord⟩
+  · intro b
+    cases b
+    · exact ⟨"False".toList, by decide⟩
+    · exact ⟨"True".toList, by decide⟩
+  · exact ⟨"None".toList, by decide⟩
+
+/-! ### non-vacuity -/
+
+/-- the loop on a list with every irregularity: repeated flag (last wins), value without flag, flag after flag, trailing
+flag, triple dash, `-` → `_`, single dash -/
+example :
+    parseCliSettingsS ["--a", "1", "--a", "2", "x", "--b", "--c", "---d-e.f-g", "v", "-s", "--kdf.n", "0x10", "--last"] =
+      ([("a", .val (.int 2)), ("d_e.f_g", .val (.str "v")), ("kdf.n", .val (.int 16))], ["x", "--b", "--c", "-s", "--last"]) := by
+  decide
+
+/-- lookup: `init --encryption.kdf.n 16 --chunking.min-length 1000 --hashing.name blake2b --encryption.kdf.n 4` -/
+example :
+    let args := ["--encryption.kdf.n", "16", "--chunking.min-length", "1000", "--hashing.name", "blake2b", "--encryption.kdf.n", "4"].map String.toList
+    (match cliMain "init" args with
+     | .settings t => [t.leafAt ["encryption".toList, "kdf".toList, "n".toList], t.leafAt ["chunking".toList, "min_length".toList],
+                       t.leafAt ["hashing".toList, "name".toList], t.leafAt ["hashing".toList]]
+     | _ => []) = [some (.int 4), some (.int 1000), some (.str "blake2b"), none] := by
+  decide
+
+/-- conflicts in both argument orders; no conflict for keys that merely share a textual prefix -/
+example :
+    (match cliMain "init" (["--a.b", "1", "--a", "2"].map String.toList) with | .conflict => true | _ => false) = true ∧
+    (match cliMain "init" (["--a", "2", "--a.b", "1"].map String.toList) with | .conflict => true | _ => false) = true ∧
+    (match cliMain "init" (["--a", "2", "--ab", "1", "--a-b.c", "3"].map String.toList) with | .settings _ => true | _ => false) = true ∧
+    (match cliMain "add-key" (["--a", "2", "x"].map String.toList) with | .unrecognised u => u == ["x".toList] | _ => false) = true ∧
+    (match cliMain "snapshot" (["--a", "2"].map String.toList) with | .unrecognised _ => true | _ => false) = true ∧
+    (match cliMain "init" (["--a", "1.5"].map String.toList) with | .unmodelled => true | _ => false) = true := by
+  decide
+
+/-- a lattice point of C17 (unencrypted; chacha; scrypt parameters) is expressible, and its rendering -/
+example :
+    let s : Settings := [("hashing", .m [("name", .val (.str "sha2")), ("bits", .val (.int 256))]),
+      ("chunking", .m [("min_length", .val (.int 4)), ("max_length", .val (.int 8))]),
+      ("encryption", .m [("cipher", .args [("name", .val (.str "chacha20_poly1305"))]), ("kdf", .args [("n", .val (.int 4)), ("r", .val (.int 2))])])]
+    cliExpressible s = true ∧ dictLike s = true ∧ (leavesOf s).all leafWritable = true ∧
+    (renderSettings s).map String.ofList = ["--hashing.name", "sha2", "--hashing.bits", "256", "--chunking.min_length", "4",
+      "--chunking.max_length", "8", "--encryption.cipher.name", "chacha20_poly1305", "--encryption.kdf.n", "4", "--encryption.kdf.r", "2"] ∧
+    cliExpressible [("encryption", .val .none)] = true ∧
+    cliExpressible [("encryption", .m [])] = false ∧ cliExpressible [("hashing", .m [("length", .val (.float 1))])] = false := by
+  decide
+
+end Cli
 
 end Replicat.C17
